@@ -68,8 +68,45 @@ def reset_flox_caches():
         pass
 
 
+WATCH = {}  # dask array name -> the in-memory array it was made from (make_dask)
+CHECK_INPUTS = False  # C14 owns "a call never modifies its arguments": only its argument leg switches this on
+
+
+def _snapshots(array, by):
+    """Bytes of every in-memory input of a call (and of the in-memory array behind a dask input made by
+    make_dask): a public call must leave its inputs as it found them."""
+    out = []
+    if not CHECK_INPUTS:
+        return out
+    for a in (array, *by):
+        if isinstance(a, np.ndarray):
+            base = a
+        else:
+            base = WATCH.get(getattr(a, "name", None))
+        if isinstance(base, np.ndarray) and base.dtype != object:
+            out.append((base, base.tobytes()))
+    return out
+
+
+def _input_mutated(snaps):
+    bad = None
+    for a, before in snaps:
+        if a.tobytes() != before:
+            bad = Outcome("error", exc="InputMutated", where="call", origin="flox",
+                          msg=f"the call changed an input array in place: now {a.tolist()!r}"[:300])
+            if a.flags.writeable:  # put the values back so that later comparisons use the pristine input
+                a[...] = np.frombuffer(before, dtype=a.dtype).reshape(a.shape)
+    return bad
+
+
 def call_reduce(array, *by, compute=True, **kw):
     """groupby_reduce (+ compute for lazy results) -> Outcome."""
+    snaps = _snapshots(array, by)
+    out = _call_reduce(array, *by, compute=compute, **kw)
+    return _input_mutated(snaps) or out
+
+
+def _call_reduce(array, *by, compute=True, **kw):
     import flox
 
     with warnings.catch_warnings():
@@ -96,6 +133,12 @@ def call_reduce(array, *by, compute=True, **kw):
 
 
 def call_scan(array, *by, compute=True, **kw):
+    snaps = _snapshots(array, by)
+    out = _call_scan(array, *by, compute=compute, **kw)
+    return _input_mutated(snaps) or out
+
+
+def _call_scan(array, *by, compute=True, **kw):
     import flox
 
     with warnings.catch_warnings():
@@ -170,7 +213,12 @@ def compare(obs, exp, scope, rtol=1e-12, atol=0.0):
 def make_dask(V, chunks):
     import dask.array as da
 
-    return da.from_array(np.asarray(V), chunks=chunks)
+    V = np.asarray(V)
+    d = da.from_array(V, chunks=chunks)
+    if len(WATCH) > 4096:
+        WATCH.clear()
+    WATCH[d.name] = V
+    return d
 
 
 def blockwise_layout_ok(codes, chunks):
